@@ -298,7 +298,12 @@ class FileStorage(
             self._file.write(packed_version)
 
         self._files = FilePool(self._file_name)
-        r = self._restore_index()
+        if stop == b'\377' * 8:
+            r = self._restore_index()
+        else:
+            # Time travel: the saved index describes the whole file, not
+            # the state before the stop transaction.  Scan the file.
+            r = None
         if r is not None:
             self._used_index = 1  # Marker for testing
             index, start, ltid = r
